@@ -442,6 +442,13 @@ pub fn run(tier: Tier, _replay: Option<String>) -> i32 {
         ("corr3", correlated_gaussian_3d(), vec![vec![0.2, -0.5, 0.7], vec![1.0, -1.6, 0.1]], vec![vec![0.5, 0.8, -0.6], vec![-1.1, 0.2, 0.4]]),
         ("banana2", Target::Banana { s: 1.5, b: 0.4 }, vec![vec![0.5, 0.3], vec![-1.2, 0.9]], vec![vec![0.7, -0.5], vec![-0.4, -0.9]]),
         ("quartic1", Target::Quartic { d: 1 }, vec![vec![0.6], vec![-1.1]], vec![vec![0.8], vec![-0.5]]),
+        // long enough for the unrolled SIMD loops of the vector kernels (16 lanes x 1 + 1)
+        (
+            "aniso17",
+            Target::DiagNormal { mu: (0..17).map(|i| 0.1 * i as f64 - 0.8).collect(), sigma: (0..17).map(|i| 0.5 + 0.15 * i as f64).collect() },
+            vec![(0..17).map(|i| 0.3 * ((i * 7 % 5) as f64) - 0.6).collect(), (0..17).map(|i| 0.9 - 0.11 * i as f64).collect()],
+            vec![(0..17).map(|i| 0.8 - 0.1 * i as f64).collect(), (0..17).map(|i| 0.25 * ((i * 3 % 7) as f64) - 0.7).collect()],
+        ),
     ];
     for (tn, target, xs, zs) in &targets {
         let d = target.dim();
@@ -472,6 +479,9 @@ pub fn run(tier: Tier, _replay: Option<String>) -> i32 {
                                 continue;
                             }
                             for maxdepth in tier.pick(vec![2, 3], vec![1, 2, 3, 4]) {
+                                if d > 3 && (maxdepth > 2 || trn == "lowrankfull") {
+                                    continue;
+                                }
                                 // depth 4 (up to 2^15 accept vectors per start, re-explored from
                                 // every reachable state) only on a sub-grid
                                 if maxdepth == 4 && !(pi == 0 && zi == 0 && step == 0.6 && (trn == "identity" || trn == "lowrank1" || d == 1)) {
